@@ -12,13 +12,14 @@ RULE = ('cases = 15 built-in forms x per-form parameter lattice (negative, zero,
         'x 4 routes {potentialfunctions.f(r, p..), potentialforms.f(p..)(r), "as.NAME p.." in [Pair], as.NAME(r, p..) inside a '
         '[Potential-Form] formula (literal and positionally bound arguments)}; every lattice point evaluated; non-trivial = '
         'parameter vector with pairwise distinct non-zero components (so a swapped binding changes the value)')
+RULE += "; polynomial orders 0..14; -1 / -2 parameter pairs; number spellings (25e-1, +1.5, .5, 5.); five spellings of as.NAME( inside formulas (blank before the bracket, upper case, bracket on a continuation line); a fifth route: as.NAME in [Pair] of a file that also defines the user's own form with the bare name NAME; integer-typed separations"
 ASSUMPTIONS = [
     'documented closed forms from docs/reference/potential_forms.rst; constants of coul (epsilon_0 = 0.0055264), zbl and Tang-Toennies (0.5292 bohr, 27.211 eV) as in DESIGN 2.3',
     'tolerance 1e-12 x (sum of the absolute values of the terms of the formula): absorbs legitimate re-association, not a changed constant, exponent or binding',
     'Tang-Toennies compared for r >= 0.8 only, with the conditioning allowance of its defining sum (catastrophic cancellation of f_2n at small b*r)',
     'decided on parameter/separation lattices, not on all reals',
 ]
-BOUNDS = {'quick': 'about 2.6k parameter vectors x 10 separations x 4 routes', 'thorough': 'adds denser lattices (all pairs/triples of the value sets) and 24 separations'}
+BOUNDS = {'quick': 'about 2.7k parameter vectors x 13 separations x 5 routes', 'thorough': 'denser lattices (about 6k vectors) x 120 separations'}
 
 R_QUICK = [0.05, 0.3, 0.8, 1.0, 1.6, 2.5, 4.0, 7.5, 12.0, 30.0, 1, 2, 7]       # (integer-typed separations as well)
 R_THOROUGH = sorted(set(R_QUICK + [0.1, 0.2, 0.45, 0.65, 0.9, 1.25, 2.0, 3.0, 3.4, 5.0, 6.5, 9.0, 10.0, 15.0, 20.0, 25.0] + [0.07 * k for k in range(1, 60)] + [4.0 + 0.53 * k for k in range(1, 40)]))
